@@ -67,7 +67,9 @@ def opInstance : Op := fun j => do
               ("digits_in_range", jBool (decide (InRange s.board))),
               ("conflict_free", jBool (decide (ConflictFree s.board))),
               ("mask_is_legal_table", jBool (decide (CachedOK s))),
-              ("has_empty_cell", jBool (emptyCells s.board > 0))])
+              ("has_empty_cell", jBool (emptyCells s.board > 0)),
+              -- the state is the model's transliterated `reset` of its board (Props.C12.sudoku_reset_obs_faithful)
+              ("reset_matches_model", jBool (decide ((reset s.board).1 = s)))])
 
 /-- C01 bounds op: {"cfg": {}} → the proved interval of every observation leaf -/
 def opBounds : Op := fun _ => do
